@@ -146,10 +146,18 @@ def eval_expression(expression: ExpressionAstNode, resolver: Resolver) -> int:
 def expr_to_ast(expr_str: str) -> ExpressionAstNode:
     from a816.parse.parser import Parser
     from a816.parse.parser_states import parse_expression_ep
+    from a816.parse.errors import ScannerException
     from a816.parse.scanner import Scanner
     from a816.parse.scanner_states import lex_expression
 
-    scanner = Scanner(lex_expression)
+    def lex_whole_expression(s: Scanner) -> None:
+        # lex_expression returns at the first character that is no part of an expression without consuming it:
+        # as the only state of the scanner it would be called again and again on the same position.
+        lex_expression(s)
+        if s.pos < len(s.input):
+            raise ScannerException("Invalid Input", s.get_position())
+
+    scanner = Scanner(lex_whole_expression)
     tokens = scanner.scan("memory", expr_str)
     parser = Parser(tokens, parse_expression_ep)
     nodes = parser.parse()
